@@ -362,6 +362,9 @@ def shrink(sc):
     return out
 
 
+SEEDS  = {'quick': 3000, 'thorough': 150000}
+BUDGET = {'quick': 240, 'thorough': 3000}
+
 INFO = {
     'real': ['TaskManager._state_sub_cb/_update_tasks/_task_cb/submit_tasks/'
              'register_callback', 'Task._update', 'states._task_state_progress',
